@@ -971,7 +971,9 @@ def rule_D9(repo: Repo) -> RuleResult:
     found = False
     for node in walk_no_nested(f.node):
         if isinstance(node, ast.GeneratorExp) or isinstance(node, ast.ListComp):
-            if "mask=chunk" in norm(node) or "mask=" in norm(node.elt):
+            # the element binds the per-block positions to `mask`:  dict(mask=chunk)  or  {"mask": chunk}
+            elt_txt = norm(node.elt)
+            if "mask=" in elt_txt or "'mask':" in elt_txt or '"mask":' in elt_txt:
                 found = True
                 it = node.generators[0].iter
                 n += 1
